@@ -229,11 +229,11 @@ func (e *c20env) ruleVerbs() {
 	}
 	// reader
 	type rinfo struct {
-		sizeVar, bit    types.Object
-		valBit, sizeBit types.Object
+		sizeVar, bit        types.Object
+		valBit, sizeBit     types.Object
 		sizeLHS, sizeBitLHS types.Object
-		stores          []c20store
-		cc              *ast.CaseClause
+		stores              []c20store
+		cc                  *ast.CaseClause
 	}
 	rv := map[byte]*rinfo{}
 	for _, cl := range rcl {
